@@ -6,7 +6,7 @@
       0<=f<6 /\ 0<=l<=30 /\ 0<=k<4^l /\ c = f*2^61 + (2k+1)*4^(30-l). *)
 From Coq Require Import ZArith List Bool Floats Reals.
 From Geo Require Import Base.GoPrim Gen.CellIDFull Model.CellIDTables
-  Base.F64Arith Proofs.C01_Tables Proofs.C01_Algebra Proofs.C01_IJ Proofs.C01_Advance Proofs.C01_Iter Proofs.C01_Point Proofs.C01_Text Proofs.C01_Hilbert Proofs.StUV_Mono.
+  Base.F64Arith Proofs.C01_Tables Proofs.C01_Algebra Proofs.C01_IJ Proofs.C01_Advance Proofs.C01_Iter Proofs.C01_Point Proofs.C01_Text Proofs.C01_Hilbert Proofs.C01_Inverse Proofs.StUV_Mono.
 (* the hand models compared with Go by the observer (built with this file: one make target) *)
 From Geo Require Model.CellIDNbr Model.C01Obs.
 From Geo Require Import Model.CellIDText.
@@ -113,6 +113,25 @@ Theorem c01_from_string_zero_or_valid : forall s : list Z,
   CellIDFromString s = 0 \/ s2_CellID_IsValid (CellIDFromString s) = true.
 Proof. exact FromString_zero_or_valid. Qed.
 Print Assumptions c01_from_string_zero_or_valid.
+
+(** the other direction: with c01_face_ij_roundtrip, cellIDFromFaceIJ is a bijection between
+    {f<6} x [0,2^30)^2 and the valid leaves, with inverse faceIJOrientation *)
+Theorem c01_face_ij_inverse : forall c f k, rep c f 30 k ->
+  exists i j o, s2_CellID_faceIJOrientation c = (f, i, j, o) /\ 0 <= i < 2 ^ 30 /\ 0 <= j < 2 ^ 30 /\
+    s2_cellIDFromFaceIJ f i j = c.
+Proof. exact face_ij_inverse. Qed.
+Print Assumptions c01_face_ij_inverse.
+
+(** prefix property: the (i,j) returned for a cell and for any of its ancestors lie in the same
+    square of the ancestor's level (so ijLevelToBoundUV of the ancestor is the bound of the square
+    containing the cell's (i,j)) *)
+Theorem c01_ancestor_ij_prefix : forall c f l k l', rep c f l k -> 0 <= l' <= l ->
+  exists i j o i' j' o',
+    s2_CellID_faceIJOrientation c = (f, i, j, o) /\
+    s2_CellID_faceIJOrientation (s2_CellID_Parent c l') = (f, i', j', o') /\
+    i' / 2 ^ (30 - l') = i / 2 ^ (30 - l') /\ j' / 2 ^ (30 - l') = j / 2 ^ (30 - l').
+Proof. exact ancestor_prefix. Qed.
+Print Assumptions c01_ancestor_ij_prefix.
 
 (** along the curve ----------------------------------------------------------- *)
 Theorem c01_next_wrap_is_index_plus_one : forall c f l k, rep c f l k ->
